@@ -299,6 +299,31 @@ func c19R4(e *Engine) {
 		okT := strings.Contains(to, "rangekey-of") && strings.Contains(to, "RequestItems")
 		_, hasCond := fs["ConditionExpression"]
 		e.check(okK && okT && !hasCond, "R4", "v2.Client.BatchGetItem:request", e.pos(al.Pos()), "GetItemInput{Key ← %s, TableName ← %s}", ko, to)
+		// every per-table setting of the batch request (projection, attribute names, consistency, …) reaches the
+		// single-item request under the same name: GetItem validates and projects with them
+		if kaa := sdkStruct(al.Type(), "KeysAndAttributes", e); kaa != nil {
+			gi := namedOf(al.Type()).Underlying().(*types.Struct)
+			giFields := map[string]bool{}
+			for i := 0; i < gi.NumFields(); i++ {
+				giFields[gi.Field(i).Name()] = true
+			}
+			for i := 0; i < kaa.NumFields(); i++ {
+				f := kaa.Field(i).Name()
+				if f == "Keys" || !giFields[f] || !kaa.Field(i).Exported() {
+					continue
+				}
+				v, set := fs[f]
+				okF := false
+				if set {
+					for _, o := range e.origins(v) {
+						if strings.HasSuffix(o, "KeysAndAttributes."+f) || strings.Contains(o, "field KeysAndAttributes."+f+" of") {
+							okF = true
+						}
+					}
+				}
+				e.check(okF, "R4", "v2.Client.BatchGetItem:forwards-"+f, e.pos(al.Pos()), "the batch request's %s reaches the single-item request (set:%v): without it the per-key GetItem validates/projects differently from an individual GetItem with the same settings", f, set)
+			}
+		}
 	}
 	// (c) unprocessed append only on the non-nil error edge; response append only on the nil edge
 	var helperCall *ssa.Call
@@ -458,4 +483,22 @@ func derivesFromAny(v ssa.Value, srcs []*ssa.Extract) bool {
 		}
 	}
 	return false
+}
+
+// sdkStruct: the struct type named `name` in the package that declares the (pointer to) struct type t's sibling types
+// (dynamodb.GetItemInput lives in service/dynamodb, KeysAndAttributes in service/dynamodb/types: searched in the imports).
+func sdkStruct(t types.Type, name string, e *Engine) *types.Struct {
+	nt := namedOf(t)
+	if nt == nil || nt.Obj().Pkg() == nil {
+		return nil
+	}
+	cands := append([]*types.Package{nt.Obj().Pkg()}, nt.Obj().Pkg().Imports()...)
+	for _, p := range cands {
+		if o := p.Scope().Lookup(name); o != nil {
+			if st, ok := o.Type().Underlying().(*types.Struct); ok {
+				return st
+			}
+		}
+	}
+	return nil
 }
